@@ -4,6 +4,7 @@ Tie: Lean `run` (operational accumulators; theorems C03_* relate them to the mat
 aggregates) vs REAL rbql.query over numeric-string / number columns, group sizes 1..6, 1-2 keys,
 WHERE that empties groups, all defined spellings, TOP/LIMIT.  Numbers are compared as exact
 rationals (floats mapped back with limit_denominator; generated values are dyadic decimals)."""
+import datetime
 import json
 import random
 
@@ -138,6 +139,10 @@ def builtin_dispatch_check(res):
         ('select max(int(a3))', [[10]]),
         ('select min(a1), max(a3), sum(a3)', [[1, 10, 25]]),
         ('select a2, min(a1) group by a2', [['a', 1], ['b', 3], ['c', 2]]),
+        # ONE argument that is neither text nor a number nor iterable (a date): the builtin refuses it (TypeError), so it is the aggregate — min stays min, max stays max
+        ('select min(datetime.date(2020, 1, int(a1))), max(datetime.date(2020, 1, int(a3)))', [[datetime.date(2020, 1, 1), datetime.date(2020, 1, 10)]]),
+        ('select a2, max(datetime.date(2020, int(a1), 1)), min(datetime.date(2020, int(a1), 2)) group by a2', [[r[1], datetime.date(2020, int(r[0]), 1), datetime.date(2020, int(r[0]), 2)] for r in sorted(A, key=lambda r: r[1])]),
+        ('select min(datetime.timedelta(int(a3))), max(datetime.timedelta(int(a3)))', [[datetime.timedelta(7), datetime.timedelta(10)]]),
     ]
     cases = [{'q': {'items': []}, 'A': A, 'B': None} for _ in checks]
     lines = [engine_corr.make_line(c, lang_texts={'py': t, 'js': t}) for c, (t, _e) in zip(cases, checks)]
